@@ -143,8 +143,32 @@ class C13(Property):
             ws.add(rng.randrange(1, 301))
         return sorted(ws)
 
+    @staticmethod
+    def explicit_docs(rng, count):
+        """Explicit token lists for the console renderer: blocks nested 1..45 deep (margins far beyond the 50 columns of the
+        padding constant: the renderer used to panic there, `fixed: property=C04`), and random (un)balanced lists."""
+        from .C16 import gen_tokens
+        from ..prop import RawCase
+        out = []
+        for j in range(count):
+            if j % 2 == 0:
+                depth = rng.choice([1, 3, 8, 12, 17, 18, 19, 25, 26, 30, 45])
+                opens, closes = [], []
+                for lv in range(depth):
+                    b = rng.choice(["section3", "section3", "itemterm", "itembody", "block", "inlineblock"])
+                    opens.append("(s %s) (t %s %s)" % (b, rng.choice(["text", "emphasis", "literal"]),
+                                                      gen.hx("lv%d %s" % (lv, rng.choice(["word", "two words", "a\nb", "x\n\ny"])))))
+                    closes.append("(e %s)" % b)
+                toks = opens + ["(t text %s)" % gen.hx(gen_text(rng, 1))] + closes[::-1]
+            else:
+                toks = gen_tokens(rng, rng.random() < 0.7)
+            rc = RawCase("(rdoc x%d (doc %s) (full %d) (th %s))" % (j, " ".join(toks), rng.random() < 0.7, gen.hx("app")))
+            rc.tags = {"role": "rdoc"}
+            out.append(rc)
+        return out
+
     def generate(self, rng, tier, n):
-        cases = []
+        cases = self.explicit_docs(rng, 40 if tier == "quick" else 400)
         for k in range(n):
             opts = self.gen_def(rng)
             ws = self.widths(rng, tier)
@@ -168,7 +192,7 @@ class C13(Property):
 
     def execute(self, cases):
         impl = infra.run_driver([c.line() for c in cases], per=16)
-        lines = []
+        lines = [c.line() for c in cases if c.tags.get("role") == "rdoc"]
         for c in cases:
             ic = impl.get(c.id)
             if ic and ic[0] == "RENDER" and ic[3].startswith("(doc"):
@@ -187,6 +211,19 @@ class C13(Property):
         out, nontrivial, dist = [], [], {"docs": 0, "renderings": 0, "not_a_doc": 0}
         for c in cases:
             ic = impl.get(c.id)
+            if c.tags.get("role") == "rdoc":
+                dist["explicit_docs"] = dist.get("explicit_docs", 0) + 1
+                mc = model.get(c.id)
+                if not ic or ic[0] != "RDOC" or len(ic) < 4:
+                    out.append(Finding("violation", c, "the renderers did not return on an explicit document: %s" % common.show(ic)))
+                    continue
+                nontrivial.append(c.line())
+                if ic[3] == "PANIC":
+                    out.append(Finding("violation", c, "console rendering of an explicit document panicked"))
+                if mc is None or mc[0] != "RDOC" or len(mc) < 4 or (mc[3] != "NOTUTF8" and mc[3] != ic[3]):
+                    out.append(Finding("disagree", c, "console text of an explicit document differs: model %r vs implementation %r"
+                                       % ((mc[3][:80] if mc and len(mc) > 3 else mc), ic[3][:80])))
+                continue
             if not ic or ic[0] != "RENDER":
                 dist["not_a_doc"] += 1
                 if ic and ic[0] in ("PANIC", "HANG", "EXIT"):
